@@ -30,13 +30,13 @@ import (
 // schedule is one generated run of the deployment procedure.
 type schedule struct {
 	n            int
-	start        []int  // block (relative) at which member i starts
-	absent       []bool // joins only after the Notary role is on chain
-	cancelMember int    // -1: nobody is interrupted
-	cancelAt     int    // relative block at which the member's run is cancelled
-	restartAfter int    // blocks until the member is started again
+	start        []int          // block (relative) at which member i starts
+	absent       []bool         // joins only after the Notary role is on chain
+	cancelMember int            // -1: nobody is interrupted
+	cancelAt     int            // relative block at which the member's run is cancelled
+	restartAfter int            // blocks until the member is started again
 	more         []interruption // further interruptions (any member, also the same one again)
-	leaveAt      []int  // >0: the member's process dies at this block and comes back only after the Notary role is on chain
+	leaveAt      []int          // >0: the member's process dies at this block and comes back only after the Notary role is on chain
 	// event driven churn (block numbers cannot be fixed in advance because they depend on block rewards):
 	early []bool // starts at once, dies 3 blocks after its signature record is in NNS, returns after the Notary role is on chain
 	late  []bool // starts only after the shared transaction data has expired and was re-created by the leader
